@@ -8,6 +8,7 @@ import MayVerif.Model.Sync.SyncFlagReplay
 import MayVerif.Model.Queue.MpscReplay
 import MayVerif.Model.Queue.SpscReplay
 import MayVerif.Model.Runtime.JoinReplay
+import MayVerif.Model.Chan.MpscReplay
 open MayVerif
 
 def machines : List (String × Machine) := [
@@ -16,5 +17,6 @@ def machines : List (String × Machine) := [
   ("syncflag", MayVerif.SyncFlag.machine),
   ("mq_mpsc", MayVerif.Mpsc.machine),
   ("mq_spsc", MayVerif.Spsc.machine),
-  ("join", MayVerif.Join.machine)
+  ("join", MayVerif.Join.machine),
+  ("ch_mpsc", MayVerif.Chan.Mpsc.machine)
 ]
